@@ -2,6 +2,7 @@ package main
 
 import (
 	"bytes"
+	"compress/zlib"
 	"context"
 	"encoding/binary"
 	"fmt"
@@ -298,6 +299,21 @@ func failingStreams(rng *rand.Rand) [][]byte {
 		for _, c := range cuts {
 			m := append([]byte{}, good[:td.off]...)
 			m = append(m, rebuildChunk(int32(i), 1, c, -1, nil)...)
+			m = append(m, good[td.off+td.l:]...)
+			out = append(out, m)
+		}
+		// the chunk decodes completely and fails only when the rest of the compressed stream is drained: a wrong checksum,
+		// a stream cut inside its trailer
+		var zb bytes.Buffer
+		zw := zlib.NewWriter(&zb)
+		zw.Write(pl)
+		zw.Close()
+		z := zb.Bytes()
+		bad := append([]byte{}, z...)
+		bad[len(bad)-1] ^= 0x5a
+		for _, zd := range [][]byte{bad, z[:len(z)-2]} {
+			m := append([]byte{}, good[:td.off]...)
+			m = append(m, rebuildChunk(int32(i), 1, pl, -1, zd)...)
 			m = append(m, good[td.off+td.l:]...)
 			out = append(out, m)
 		}
